@@ -119,6 +119,8 @@ val default_matches : node -> node -> bool
 
 val find_default : (node * node) list -> node -> node option
 
+val unwrap_function_default : str option list -> node -> node
+
 val build_props_type : env -> node -> (node * node) list -> st -> node * st
 
 val pat_type_ann : nat -> node -> node option
@@ -141,7 +143,11 @@ val emits_of : env -> relem -> st -> str list * st
 
 val extract_emits_type : env -> node -> st -> node option * st
 
+val key_is : string -> node -> bool
+
 val has_ident_key : string -> node list -> bool
+
+val insert_before_spread : node -> node list -> node list
 
 val inject_option : node list -> string -> node -> node list
 
